@@ -54,10 +54,11 @@ const (
 	EvTypeCase                    // a type-switch clause is taken (Node = *ast.CaseClause)
 	EvLoopExit                    // a for/range loop is left normally or by break (Node = loop stmt)
 	EvField                       // a watched struct field is read or written (Spec.Watch)
+	EvLoopIter                    // an iteration of a for statement is entered (Node = *ast.ForStmt)
 )
 
 func (k EventKind) String() string {
-	return [...]string{"call", "assign", "send", "recv", "return", "exit", "panic", "funclit", "range-iter", "close", "delete", "select-case", "type-case", "loop-exit", "field"}[k]
+	return [...]string{"call", "assign", "send", "recv", "return", "exit", "panic", "funclit", "range-iter", "close", "delete", "select-case", "type-case", "loop-exit", "field", "loop-iter"}[k]
 }
 
 type Event struct {
@@ -715,6 +716,7 @@ func (c *Ctx) forStmt(x *ast.ForStmt, in []cst, label string) flow {
 			t = fresh
 		}
 		exits = append(exits, f...)
+		t = c.emit(&Event{Kind: EvLoopIter, Node: x, Pos: x.Body.Pos()}, t)
 		rb := c.stmt(x.Body, t, "")
 		exits = append(exits, rb.takeBrk(label)...)
 		cont := append(rb.out, rb.takeCont(label)...)
